@@ -4,6 +4,8 @@
 //
 //	ctl        controlled schedules of the instrumented listz copy (shim binary), porcupine
 //	sweep      bounded-preemption sweep of tiny fixed programs (thorough)
+//	timed      PopWait(d>0) on an empty list against one Push placed near the deadline
+//	pwait/*    PopWait(d>0) alone on a non-empty / empty list, and in short histories, porcupine
 //	free/*     free-running short histories under the race detector, porcupine
 //	stress/*   long producer/consumer runs under the race detector, streaming monitors
 package main
@@ -46,6 +48,8 @@ func (c config) String() string {
 		for _, o := range t {
 			if o.Kind == "Push" {
 				fmt.Fprintf(&b, "Push(%d),", o.Val)
+			} else if o.Kind == "PopWaitD" {
+				fmt.Fprintf(&b, "PopWait(%dus),", o.Val)
 			} else {
 				fmt.Fprintf(&b, "%s,", o.Kind)
 			}
@@ -86,12 +90,25 @@ func do(l *listz.SyncList[int], rec *hist.Recorder, client int, o opSpec) {
 		op := rec.Begin(client, "PopWait", 0, 0)
 		v, ok := l.PopWait(time.Millisecond)
 		rec.End(op, int64(v), ok, "")
+	case "PopWaitD":
+		op := rec.Begin(client, "PopWait", o.Val, 0) // Arg (unused by the model) keeps the wait
+		v, ok := l.PopWait(time.Duration(o.Val) * time.Microsecond)
+		rec.End(op, int64(v), ok, "")
 	case "Len":
 		op := rec.Begin(client, "Len", 0, 0)
 		n := l.Len()
 		rec.End(op, int64(n), true, "")
 	}
 	sched.OpDone()
+}
+
+// engineKey is the counter prefix of an engine: its name without the GOMAXPROCS
+// variant suffix, so that every engine has to reach its own floors.
+func engineKey(engine string) string {
+	if i := strings.Index(engine, "/P"); i > 0 {
+		return engine[:i]
+	}
+	return engine
 }
 
 func tail(l *listz.SyncList[int], rec *hist.Recorder, maxContent int) {
@@ -162,7 +179,7 @@ func genConfig(rng *ev.Rand, maxThreads, maxOps, maxTotal int) config {
 }
 
 func judge(c *ev.Case, cfg config, init []int64, ops []hist.Op, extra string) bool {
-	var overl, okPop, failStrict, failExcused, lens, lensOv int64
+	var overl, okPop, failStrict, failStrictConc, failExcused, lens, lensOv int64
 	for _, o := range ops {
 		if o.Overlapped {
 			overl++
@@ -175,6 +192,9 @@ func judge(c *ev.Case, cfg config, init []int64, ops []hist.Op, extra string) bo
 				failExcused++
 			} else {
 				failStrict++
+				if o.Client < len(cfg.Threads) {
+					failStrictConc++ // not one of the quiescent tail's
+				}
 			}
 		case "Len":
 			lens++
@@ -195,6 +215,33 @@ func judge(c *ev.Case, cfg config, init []int64, ops []hist.Op, extra string) bo
 	c.Add("pop_fail_overlapped", failExcused)
 	c.Add("len_calls", lens)
 	c.Add("len_calls_overlapped", lensOv)
+	// the same per engine, and the calls per named function / PopWait variant inside
+	// the concurrent part (the quiescent tail is not counted here)
+	ek := engineKey(c.Engine)
+	c.Add(ek+":ops_overlapped", overl)
+	c.Add(ek+":pop_ok", okPop)
+	c.Add(ek+":pop_fail_overlapped", failExcused)
+	c.Add(ek+":len_calls_overlapped", lensOv)
+	c.Add(ek+":len_calls_quiescent", lens-lensOv)
+	// failed pops of the concurrent part that nothing overlapped (must have met an empty list)
+	c.Add(ek+":pop_fail_nonoverlapped_concurrent_part", failStrictConc)
+	if cfg.Init > 0 {
+		c.Add(ek+":runs_with_initial_content", 1)
+	}
+	for _, t := range cfg.Threads {
+		for _, o := range t {
+			switch o.Kind {
+			case "PopWait":
+				c.Add(ek+":calls_PopWait(0)", 1)
+			case "PopWaitInf":
+				c.Add(ek+":calls_PopWait(<0)", 1)
+			case "PopWaitT", "PopWaitD":
+				c.Add(ek+":calls_PopWait(>0)", 1)
+			default:
+				c.Add(ek+":calls_"+o.Kind, 1)
+			}
+		}
+	}
 	switch hist.Check(hist.UnboundedQueueModel(init), ops, 20*time.Second) {
 	case hist.Illegal:
 		c.Witness = map[string]any{"config": cfg.String(), "history": hist.Render(ops), "extra": extra}
@@ -207,7 +254,20 @@ func judge(c *ev.Case, cfg config, init []int64, ops []hist.Op, extra string) bo
 		}
 		// (the Overlapped flags stay those computed on the full history)
 		if hist.Check(hist.UnboundedQueueModel(init), noLen, 20*time.Second) == hist.Linearizable {
-			c.Failf("len-too-small", "Push/Pop linearize as a FIFO queue but some Len() result is smaller than the number of stored values at every admissible instant (config %s)", cfg.String())
+			// and the two length clauses apart: with every Len treated as overlapped
+			// (lower bound only) the history passes iff only exactness at rest failed
+			lower := make([]hist.Op, len(ops))
+			copy(lower, ops)
+			for i := range lower {
+				if lower[i].Kind == "Len" {
+					lower[i].Overlapped = true
+				}
+			}
+			if hist.Check(hist.UnboundedQueueModel(init), lower, 20*time.Second) == hist.Linearizable {
+				c.Failf("len-quiescent", "Push/Pop linearize as a FIFO queue and no Len() is too small, but a Len() that no operation overlapped differs from the number of stored values (config %s)", cfg.String())
+			} else {
+				c.Failf("len-too-small", "Push/Pop linearize as a FIFO queue but some Len() result is smaller than the number of stored values at every admissible instant (config %s)", cfg.String())
+			}
 		} else {
 			c.Failf("nonlinearizable", "history of %d operations has no linearization as an unbounded FIFO queue (config %s)", len(ops), cfg.String())
 		}
@@ -224,6 +284,8 @@ func controlled(c *ev.Case, cfg config, sc sched.Config) {
 	l, init := setup(&cfg)
 	rec := hist.NewRecorder(len(cfg.Threads), true)
 	bodies := make([]func(), len(cfg.Threads))
+	// inPush[t]: thread t is inside a Push call (read after an aborted run)
+	inPush := make([]atomic.Bool, len(cfg.Threads))
 	pushes := 0
 	for t := range cfg.Threads {
 		t := t
@@ -234,7 +296,9 @@ func controlled(c *ev.Case, cfg config, sc sched.Config) {
 		}
 		bodies[t] = func() {
 			for _, o := range cfg.Threads[t] {
+				inPush[t].Store(o.Kind == "Push")
 				do(l, rec, t, o)
+				inPush[t].Store(false)
 			}
 		}
 	}
@@ -254,6 +318,22 @@ func controlled(c *ev.Case, cfg config, sc sched.Config) {
 		if res.NoProgress {
 			c.Witness = map[string]any{"config": cfg.String(), "trace": tr, "history": hist.Render(rec.Ops())}
 			c.Failf("no-progress", "bounded progress: every live thread spins without completing an operation under a fair schedule (config %s)", cfg.String())
+			return
+		}
+		// The same clause for a Push that does not announce its spinning with Gosched:
+		// every strategy has a starvation guard (no thread takes more than 64 steps in
+		// a row while another one can run), so every in-flight push was allowed to
+		// finish many times over within the step bound, and the programs have at most
+		// 10 operations of a few steps each.
+		stuck := -1
+		for t := range inPush {
+			if inPush[t].Load() && sc.Strategy != sched.Sweep { // the sweep's fixed prefix has no such guard
+				stuck = t
+			}
+		}
+		if stuck >= 0 {
+			c.Witness = map[string]any{"config": cfg.String(), "trace": tr, "history": hist.Render(rec.Ops())}
+			c.Failf("no-progress", "bounded progress: thread %d is still inside Push after %d scheduling steps of a fair schedule (at most 64 consecutive steps per thread) (config %s)", stuck, res.Steps, cfg.String())
 			return
 		}
 		c.Add("aborted_runs", 1)
@@ -536,7 +616,7 @@ func main() {
 	r.Rule("controlled: one case = (initial content, per-thread operation lists, schedule trace) drawn from the seed; distinct = distinct hash of configuration+program+trace among runs with at least one context switch. free-running: distinct canonical histories with at least one overlapping pair. stress: distinct parameter sets.")
 	r.Assume("plain accesses between two atomic operations run as one indivisible step in the controlled engine; the race detector covers them in the free-running engines")
 	r.Assume("controlled programs: at most 4 threads and 10 operations; free-running histories: at most 8 goroutines and 22 operations")
-	r.Assume("'Push always completes once other in-flight pushes are allowed to finish' is checked as bounded progress under a fair schedule (step bound 6000)")
+	r.Assume("'Push always completes once other in-flight pushes are allowed to finish' is checked as bounded progress under a fair schedule (step bound 6000, no thread takes more than 64 consecutive steps while another can run): a run that hits the bound with every live thread yielding, or with a thread still inside Push, is a violation")
 	r.Assume("an overlapped Len() must be >= the number of stored values at some instant inside the call; a non-overlapped Len() must be exact")
 	sched.JitterOn = os.Getenv("VERIF_JITTER") == "1"
 
@@ -545,10 +625,19 @@ func main() {
 	if r.Thorough() {
 		r.CasesProc("sweep", sweepN, ev.Opt{Bin: "shim", Procs: 14}, sweepCase)
 	}
+	if r.HasViolations() {
+		// a tree that already failed under controlled schedules is not run freely: a
+		// Push that cannot complete would hold every free-running case until its watchdog
+		r.Finish()
+	}
 	nfree := r.N(6000, 120000)
 	r.CasesProc("timed", r.N(160, 3000), ev.Opt{Procs: 4, Workers: 8, AlwaysLog: true, MaxCaseSeconds: 120}, timedCase)
 	r.Require("timed_popwait_timed_out", 100)
 	r.Require("timed_popwait_got_value", 100)
+	npw := r.N(200, 4000)
+	r.CasesProc("pwait/race", npw, ev.Opt{Bin: "race", Procs: 4, Workers: 16, AlwaysLog: true, MaxCaseSeconds: 120}, pwaitCase)
+	r.Require("pwait:alone_nonempty_popwait", int64(npw))
+	r.Require("pwait:alone_empty_popwait", int64(npw))
 	r.CasesProc("free/race", nfree, ev.Opt{Bin: "race", Procs: 6, AlwaysLog: true}, freeCase)
 	r.CasesProc("free/jitter", nfree, ev.Opt{Bin: "shimrace", Procs: 6, AlwaysLog: true, Env: []string{"VERIF_JITTER=1"}}, freeCase)
 	if r.HasViolations() {
@@ -566,5 +655,35 @@ func main() {
 	r.Require("ops_overlapped", 1000)
 	r.Require("pop_ok", 1000)
 	r.Require("len_calls_overlapped", 500)
+	// every named function and PopWait variant is really called, in every engine that
+	// can run it, and every situation a clause quantifies over is produced there
+	n64 := int64(nctl)
+	for _, k := range []string{"Push", "Pop", "Len"} {
+		r.Require("ctl:calls_"+k, n64/2)
+		r.Require("free/race:calls_"+k, int64(nfree))
+		r.Require("free/jitter:calls_"+k, int64(nfree))
+	}
+	r.Require("ctl:calls_PopWait(0)", n64/10)
+	r.Require("ctl:calls_PopWait(<0)", n64/10)
+	r.Require("free/race:calls_PopWait(0)", int64(nfree)/4)
+	r.Require("free/jitter:calls_PopWait(0)", int64(nfree)/4)
+	r.Require("pwait/race:calls_PopWait(>0)", int64(npw))
+	r.Require("pwait:popwait_value", int64(npw)/4)
+	r.Require("pwait:popwait_timed_out", int64(npw)/8)
+	r.Require("pwait/race:ops_overlapped", int64(npw)/2)
+	r.Require("ctl:ops_overlapped", n64/2)
+	r.Require("ctl:pop_ok", n64)
+	r.Require("ctl:pop_fail_overlapped", n64/40)                    // the excused kind of failure
+	r.Require("ctl:pop_fail_nonoverlapped_concurrent_part", n64/40) // the kind that must have met an empty list
+	r.Require("ctl:len_calls_overlapped", n64/20)                   // lower bound only
+	r.Require("ctl:len_calls_quiescent", n64)                       // must be exact
+	r.Require("ctl:runs_with_initial_content", n64/4)
+	r.Require("free/race:ops_overlapped", int64(nfree)/100)
+	r.Require("free/jitter:ops_overlapped", int64(nfree)/2)
+	r.Require("free/race:pop_ok", int64(nfree))
+	r.Require("free/jitter:pop_ok", int64(nfree))
+	r.Require("free/race:len_calls_quiescent", int64(nfree))
+	r.Require("free/jitter:len_calls_quiescent", int64(nfree))
+	r.Require("stress_runs", int64(r.N(12, 60)+r.N(6, 30)))
 	r.Finish()
 }
